@@ -537,3 +537,37 @@ Qed.
 
 Lemma tftp_parity c r f : tftp_prepare false c r f = http_prepare c r (norm_name f).
 Proof. unfold tftp_prepare, http_prepare. now rewrite rewrite_filename_norm. Qed.
+
+(* ---------- the extra path never contains NUL (the re-check in _translate_path is dead code) ---------- *)
+Lemma uri_path_no_nul uri : no_nul uri = true -> ~ In 0 (uri_path uri).
+Proof.
+  unfold no_nul, uri_path. intros H. apply negb_true_iff, orb_false_iff in H as [H1 H2].
+  destruct (take_until_spec QM uri) as [_ Hs].
+  apply unquote_no_nul.
+  - apply mem_N_false. intros Hin. apply mem_N_false in H1. apply H1.
+    destruct Hs as [Hs|[r Hs]]; rewrite Hs; [exact Hin | apply in_or_app; now left].
+  - destruct (contains [PCT; 48; 48] (take_until QM uri)) eqn:E; [|reflexivity].
+    apply contains_iff in E as [a [b E]]. exfalso.
+    assert (Hc : contains NUL_ENC uri = true).
+    { apply contains_iff. destruct Hs as [Hs|[r Hs]]; rewrite Hs, E.
+      - exists a, b. reflexivity.
+      - exists a, (b ++ QM :: r). now rewrite <- !app_assoc. }
+    congruence.
+Qed.
+
+Theorem extra_path_no_nul c r uri e : wf r ->
+  matches (prepare_context c r uri) = true -> extra_path (prepare_context c r uri) = Some e ->
+  mem_N 0 e = false.
+Proof.
+  intros W. unfold prepare_context.
+  destruct (mem_N 0 uri || contains NUL_ENC uri) eqn:En; [cbn; discriminate|].
+  assert (Hn : ~ In 0 (uri_path uri)) by (apply uri_path_no_nul; unfold no_nul; now rewrite En).
+  set (P := uri_path uri) in *. intros Hm He. apply mem_N_false. intros Hin. apply Hn.
+  destruct (extract r) eqn:Ex.
+  - destruct (match_path_sound c r P W Ex Hm) as [v [e' [[HP _] Heq]]]. rewrite Heq in He. cbn in He.
+    destruct e' as [|x e'']; [discriminate|]. inversion He; subst. rewrite HP.
+    apply in_or_app. right. apply in_or_app. right. apply in_or_app. now right.
+  - destruct (match_path0_sound c r P W Ex Hm) as [[_ [_ Heq]]|[e' [[HP _] Heq]]]; rewrite Heq in He; cbn in He.
+    + discriminate.
+    + destruct e' as [|x e'']; [discriminate|]. inversion He; subst. rewrite HP. apply in_or_app. now right.
+Qed.
